@@ -387,11 +387,18 @@ func ParseDomainPattern(pattern string) (isWildcard bool, baseDomain string) {
 	return false, pattern
 }
 
+// MaxAdvertisedStringLen is the longest domain pattern, forward key or forward
+// target a route advertisement can carry: each is prefixed by a one-byte length.
+const MaxAdvertisedStringLen = 255
+
 // ValidateDomainPattern validates a domain pattern.
 // Returns nil if valid, or an error describing the issue.
 func ValidateDomainPattern(pattern string) error {
 	if pattern == "" {
 		return fmt.Errorf("empty domain pattern")
+	}
+	if len(pattern) > MaxAdvertisedStringLen {
+		return fmt.Errorf("domain pattern too long: %d bytes (max %d)", len(pattern), MaxAdvertisedStringLen)
 	}
 
 	isWildcard, baseDomain := ParseDomainPattern(pattern)
